@@ -466,6 +466,11 @@ def r11_bounds_lookup(idx, r):
         uses = f"self._bounds[{axis}]" in norm(e) and any(isinstance(x, ast.Name) and x.id == arg for x in ast.walk(e))
         if nearest and uses and not exact:
             r.ok(f"indicesOfBounds:axis{axis}:nearest-bound", f, node=ret)
+            # the stored bounds are whatever sequence the constructor was given (reduce() hands back tuples): arithmetic needs an array
+            raw = [x for x in ast.walk(e) if isinstance(x, ast.BinOp) and isinstance(x.op, ast.Sub) and any(norm(y) == f"self._bounds[{axis}]" for y in (x.left, x.right))]
+            r.require(not raw, f"indicesOfBounds:axis{axis}:bounds-as-array", f, node=raw[0] if raw else ret,
+                      msg=f"`{norm(raw[0]) if raw else ''}` subtracts from the stored bounds as they are: for a grid built with list bounds or rebuilt from reduce() (tuples) this raises "
+                          "TypeError, while getCoordinates works - the two directions of the index <-> coordinate map are not both available")
         elif exact:
             r.violate(f"indicesOfBounds:axis{axis}:nearest-bound", f, f"index {pos} is `{norm(e)[:80]}`: an exact ordering lookup on real-valued bounds; a lower bound a rounding error above the stored mesh "
                       "value (10-decimal input, i*dTheta) is assigned to the next cell", node=ret)
@@ -498,5 +503,5 @@ def run(idx, chk):
                  necessary="'the least number of rings holding n cells is exact'")
     chk.run_rule("R07.10", "reduce() keeps the offset unless all three components are zero (8-pattern truth table)", lambda r: r10_reduce_keeps_offset(idx, r), floor=1,
                  necessary="'a grid rebuilt from its stored constructor arguments gives the same coordinates ... for every index'")
-    chk.run_rule("R07.11", "theta-R-Z indicesOfBounds finds the NEAREST mesh line (tolerant of rounding), in the (theta, r) argument order", lambda r: r11_bounds_lookup(idx, r), floor=2,
+    chk.run_rule("R07.11", "theta-R-Z indicesOfBounds finds the NEAREST mesh line (tolerant of rounding), in the (theta, r) argument order", lambda r: r11_bounds_lookup(idx, r), floor=4,
                  necessary="indices <-> coordinates are mutually inverse for bounds-defined grids given values that equal the bounds up to rounding")
